@@ -52,6 +52,19 @@ CHECKS = {
                      "database (exactly one value, every allowed value possible, equality <=> same value) and all histories up to depth 5 "
                      "(domain reported = values not excluded; entailment oracle).",
                 note="The planner-side variant without the exactly-one clause (enforce_exct_one=false) is not covered here."),
+    "C11": dict(engine="relmc", category="exploration", design_ref="DESIGN.md §4 C11",
+                technique="bounded exhaustive enumeration of relation requests x preludes x model grid on the real lra_theory; per grid point a complete search through the API decides whether the literal can be true/false",
+                text="Every relation between every pair of a 12-16 expression pool (cancelling, repeated, scaled, basic variables), as first "
+                     "or second request after 8 kinds of root preludes, is judged at every point of a 5x5 rational grid: the literal must "
+                     "be satisfiable iff the relation holds there and refutable iff it does not; no grid solution may be lost and root "
+                     "bounds may not change by requesting.",
+                note="Two real variables; grid values {-1,0,1/2,1,2}; relies on exact rational evaluation of the relation at the point."),
+    "C12": dict(engine="relmc", category="exploration", design_ref="DESIGN.md §4 C12",
+                technique="bounded exhaustive enumeration of difference-expression requests and queries x states x model grid on idl_theory/rdl_theory",
+                text="All requests between c*x+k / c*(x-y)+k forms (both variable orders, five relations, four network states) judged at "
+                     "every grid point with both points pinned; bounds(lin), distance(lin,lin), equates(lin,lin) compared with the "
+                     "variable-level distances for every expression pair in every state.",
+                note="Forms rejected with std::invalid_argument are accepted and counted."),
 }
 
 PENDING_REASON = "check not built yet in this round (planned, see DESIGN.md §4); not claimed until its quick and thorough tiers have run to completion on the unchanged tree"
@@ -106,6 +119,8 @@ ENGINES = [
      "kind_free_text": "exhaustive operand x operator-form enumeration against reference arithmetic, forked workers"},
     {"name": "reify", "path": "harness/reify.cpp", "serves_properties": ["C13"],
      "kind_free_text": "exhaustive root-level construction histories on sat_core, truth-table oracle"},
+    {"name": "relmc", "path": "harness/relmc.cpp", "serves_properties": ["C11", "C12"],
+     "kind_free_text": "exhaustive relation-request enumeration judged on a model grid with pinned variables (real lra/idl/rdl theories)"},
     {"name": "netmc", "path": "harness/netmc.cpp", "serves_properties": ["C07", "C08", "C09", "C10", "C14"],
      "kind_free_text": "stateless depth-bounded exhaustive exploration of API histories on the real constraint network (history replayed on a fresh network under a deterministic allocator), reference models TT/FM/FW"},
 ]
